@@ -165,14 +165,14 @@ PROPS.update({
         "monitors": {
             "quick": [
                 {"name": "asan", "variant": "asan"},
-                {"name": "asan0", "variant": "asan0", "only": "score_exact,gather,stripe_reuse_v,maxima,score_u8,sample,scan"},
+                {"name": "asan0", "variant": "asan0", "only": "score_exact,score_reuse,gather,stripe_reuse_v,maxima,score_u8,sample,scan"},
                 {"name": "chk", "variant": "chk"},
                 {"name": "rel", "variant": "rel"},
-                {"name": "valgrind", "variant": "rel", "only": "gather,maxima,score_u8,stripe_reuse_v"},
+                {"name": "valgrind", "variant": "rel", "only": "gather,maxima,score_u8,stripe_reuse_v,score_reuse"},
             ],
             "thorough": [
                 {"name": "asan", "variant": "asan"},
-                {"name": "asan0", "variant": "asan0", "only": "score_exact,gather,stripe_reuse_v,maxima,score_u8,sample,scan,score,stripe_histories,dense"},
+                {"name": "asan0", "variant": "asan0", "only": "score_exact,score_reuse,gather,stripe_reuse_v,maxima,score_u8,sample,scan,score,stripe_histories,dense"},
                 {"name": "chk", "variant": "chk"},
                 {"name": "rel", "variant": "rel"},
                 {"name": "valgrind", "variant": "rel", "only": "gather,maxima,score_u8,stripe_reuse_v,score_exact,score,scan,sample,stripe_histories,dense,encode_v,stripe_v"},
